@@ -170,6 +170,31 @@ def obs_events(chk):
         else:
             ev.update(yw_dev=0, maxroot_ppm=0, maxk_ppm=0, ppos=False, lens=False, lpc_dev=0)
         batch.add(ev, {'N': N, 'p': p, 'cplx': cplx, 'kind': int(kind), 'seed': chk.seed, 'rep': rep})
+    # two Yule-Walker objects alive together, one per normalisation: the biased one is still the biased model
+    from spectrum import pyule
+    for cplx in (False, True):
+        N, p = 24, 8
+        t = np.arange(N)
+        x = np.cos(0.6 * t) + 0.5 * np.cos(1.7 * t + 1) + 0.2 * rng.randn(N) + (0.3j * rng.randn(N) if cplx else 0)
+
+        def both():
+            pb = pyule(x.copy(), p, norm='biased', NFFT=64)
+            pu = pyule(x.copy(), p, norm='unbiased', NFFT=64)
+            pb.psd
+            try:
+                pu.psd
+            except Exception:
+                pass
+            return np.asarray(pb.ar)
+        ok, arb = call_guard(both)
+        ok2, ref = call_guard(aryule, x.copy(), p, norm='biased')
+        ev = {'ev': 'yw', 'N': N, 'p': p, 'cplx': cplx, 'kind': 9, 'raised': not (ok and ok2), 'yw_dev': 0, 'maxroot_ppm': 0, 'maxk_ppm': 0,
+              'ppos': True, 'lens': True, 'lpc_dev': 0}
+        if ok and ok2:
+            a = np.concatenate(([1.0], arb))
+            ev['yw_dev'] = obs.q(np.max(np.abs(np.asarray(arb) - np.asarray(ref[0]))) / max(1.0, np.max(np.abs(ref[0]))))
+            ev['maxroot_ppm'] = obs.q(np.max(np.abs(np.roots(a))), 1e-6)
+        batch.add(ev, {'N': N, 'p': p, 'cplx': cplx, 'kind': 'two pyule objects with different norm alive together', 'seed': chk.seed})
     obs.validate(chk, batch, 'obs-large-N', lambda ev, cl: 'C12:OBS:%s:%s' % (cl, 'complex' if ev['cplx'] else 'real'),
                  lambda ev, cl: 'aryule N=%d order=%d: clause "%s" fails: %s' % (ev['N'], ev['p'], cl, ev))
     chk.sample('obs-event', batch.events[0], 1)
